@@ -47,7 +47,7 @@ var templates = []string{
 type Case struct {
 	Class   string `json:"class"` // padding | long-token | chunking
 	Base    string `json:"base"`
-	Variant string `json:"variant"`         // source text of the variant (same as base for chunking)
+	Variant string `json:"variant"`          // source text of the variant (same as base for chunking)
 	Chunks  []int  `json:"chunks,omitempty"` // read sizes, cycled
 	Reader  string `json:"reader,omitempty"`
 	Want    string `json:"want,omitempty"` // for long tokens: text that must appear in the AST rendering
